@@ -50,6 +50,7 @@ type cfgSpec struct {
 	Host          bool     `json:"host_global,omitempty"`    // adds the host global c11_host
 	Variadic      bool     `json:"variadic,omitempty"`       // WithoutGlobals(a, b) instead of two WithoutGlobal
 	Family        string   `json:"family,omitempty"`         // deny-list family (built repeatedly: the list is applied in Go map order)
+	PreparedVM    bool     `json:"prepared_vm,omitempty"`    // the script runs through risor.WithVM on a VM created with the default configuration (vm.New) that has never run
 	ReuseVM       bool     `json:"reuse_vm,omitempty"`       // the script runs through risor.WithVM on a VM that has already run under the default configuration
 }
 
@@ -99,6 +100,9 @@ func (c cfgSpec) String() string {
 	if c.ReuseVM {
 		p = append(p, "[on a VM that already ran under the default configuration]")
 	}
+	if c.PreparedVM {
+		p = append(p, "[on a VM created with the default configuration that has not run yet]")
+	}
 	if len(p) == 0 {
 		return "default"
 	}
@@ -147,6 +151,15 @@ func (c cfgSpec) options() (opts []risor.Option, repl object.Object) {
 		opts = append(append(opts, over...), deny...)
 	} else {
 		opts = append(append(opts, deny...), over...)
+	}
+	if c.PreparedVM {
+		// a host that prepares its VM ahead of time, with the default configuration, and runs nothing on it yet
+		dcfg := risor.NewConfig()
+		if tree, err := parser.Parse(context.Background(), "1"); err == nil {
+			if code, err := compiler.Compile(tree, dcfg.CompilerOpts()...); err == nil {
+				opts = append(opts, risor.WithVM(vm.New(code, dcfg.VMOpts()...)))
+			}
+		}
 	}
 	if c.ReuseVM {
 		// a host that keeps one VM: it has evaluated something under the default configuration before
@@ -805,9 +818,10 @@ func Check(r *ev.Run, replay string) {
 	for _, n := range u.names {
 		if n.IsModule {
 			singles = append(singles, cfgSpec{Deny: []string{n.Name}, ReuseVM: true})
+			singles = append(singles, cfgSpec{Deny: []string{n.Name}, PreparedVM: true})
 		}
 	}
-	singles = append(singles, cfgSpec{NoDefaults: true, ReuseVM: true})
+	singles = append(singles, cfgSpec{NoDefaults: true, ReuseVM: true}, cfgSpec{NoDefaults: true, PreparedVM: true})
 	all = append(all, singles...)
 	for _, n := range u.names {
 		all = append(all, cfgSpec{Override: []string{n.Name}, Repl: "module"})
